@@ -171,7 +171,7 @@ func vecCases(rng *rand.Rand, emit func(c Case)) {
 			}
 		case "vs":
 			for _, a := range va {
-				for _, cnt := range []uint32{0, 1, uint32(d.w) - 1, uint32(d.w), uint32(d.w) + 1, 7, 0xffffffff, 0x80000000 + 3} {
+				for _, cnt := range []uint32{0, 1, uint32(d.w) - 1, uint32(d.w), uint32(d.w) + 1, 7, 0xffffffff, 0x80000000 + 3, uint32(d.w) / 2, 32, 33, 96, 16, 8} {
 					mk(a, nil, toBytes(uint64(cnt), 4))
 				}
 			}
@@ -293,6 +293,19 @@ func checkVector(ctx context.Context, rt wazero.Runtime, d vecDesc, cases []Case
 			m.AddFunc(wb.Func{Results: results, Body: wb.Cat(mem, op), Export: "m"})
 			m.AddFunc(wb.Func{Params: params, Results: results, Body: wb.Cat(par, op), Export: "p"})
 		}
+		forms := []string{"memory", "params"}
+		if d.form == "vs" { // the count as a constant in the body (what compilers special-case): one function per distinct count
+			forms = append(forms, "const-count")
+			done := map[uint32]bool{}
+			for _, c := range group {
+				cnt := binary.LittleEndian.Uint32(bytesOf(c.C))
+				if !done[cnt] {
+					done[cnt] = true
+					m.AddFunc(wb.Func{Params: []wasm.ValueType{wb.V128}, Results: []wasm.ValueType{wb.V128},
+						Body: wb.Cat(wb.LocalGet(0), wb.I32Const(int32(cnt)), op), Export: fmt.Sprintf("k%d", cnt)})
+				}
+			}
+		}
 		mod, err := rt.InstantiateWithConfig(ctx, m.Build(), wazero.NewModuleConfig().WithName(""))
 		if err != nil {
 			panic(fmt.Sprintf("%s: %v", d.wasm, err))
@@ -335,7 +348,7 @@ func checkVector(ctx context.Context, rt wazero.Runtime, d vecDesc, cases []Case
 					args[2] = uint64(le.Uint32(buf[16:]))
 				}
 			}
-			for _, form := range []string{"memory", "params"} {
+			for _, form := range forms {
 				*nexec++
 				var got []byte
 				var r []uint64
@@ -347,7 +360,11 @@ func checkVector(ctx context.Context, rt wazero.Runtime, d vecDesc, cases []Case
 						got, _ = mod.Memory().Read(64, 16)
 					}
 				} else {
-					r, err = mod.ExportedFunction("p").Call(ctx, args...)
+					if form == "const-count" {
+						r, err = mod.ExportedFunction(fmt.Sprintf("k%d", uint32(args[2]))).Call(ctx, args[:2]...)
+					} else {
+						r, err = mod.ExportedFunction("p").Call(ctx, args...)
+					}
 					if d.res == "v128" && err == nil {
 						got = make([]byte, 16)
 						le.PutUint64(got, r[0])
